@@ -135,11 +135,8 @@ check_metz(const json& c)
         unit_gain = false;
       // known finding C19-F5: max_kernel_size 1 gives kernel_length 0, i.e. an EMPTY kernel = identity, instead of the
       // one-element kernel {k_0} that max_kernel_size 2 and 3 give
-      const bool f5 = m[a] == 1 && L == 0 && k.c[0] == 1.;
-      if (f5 && !no_exclude())
-        vf::stats().count("excluded C19-F5 (Metz max_kernel_size 1 -> identity)");
+      // (cases with max_kernel_size 1 are rejected before check() through known_signature(); with VERIF_NO_EXCLUDE=1 they fail below)
       // the documented formula (statistic + loose check on the central elements)
-      if (!f5 || no_exclude())
       {
         const double sigma_mm = double(fwhm[a]) / std::sqrt(8. * std::log(2.));
         const double k0 = metz_formula(0, sigma_mm, power[a], samp[a]);
@@ -224,11 +221,8 @@ check_sepconv_image(const json& c)
   // known finding C19-F3: the constructor taking coefficients sizes its parsing copy with get_length() instead of
   // 2*max(max_index,-min_index)+1 and writes outside it when max_index > -min_index (heap overflow); its parameter_info()
   // is wrong for every asymmetric index range
-  if (how == 0 && asym_ctor && !no_exclude())
-    {
-      ++vf::stats().excluded_known;
-      return Result::reject("known finding C19-F3 (constructor with asymmetric kernel range)");
-    }
+  // (such cases are rejected before check() through known_signature(), see c19_fourier_filters.cxx)
+  (void)asym_ctor;
   vf::stats().cls(how == 0 ? "image filter: constructor" : how == 1 ? "image filter: set_filter_coefficients" : "image filter: parsed");
   stir::shared_ptr<stir::SeparableConvolutionImageFilter<float>> F;
   if (how == 0)
